@@ -158,6 +158,7 @@ class IdxE:
     succ: Any = None        # (kind, anchor, slack): the position right after the node just inserted here
     born: int = 0
     pos: Any = None         # (depth, k>0): this value is the 0-based enumerate() counter of the loop at that depth
+    advloop: Any = None     # depth of the loop whose enumerate(start=<index>) / <index> + counter produced this position
 
 
 @dataclass(frozen=True)
